@@ -8,7 +8,9 @@
    single polymorphic [rc] (cell types: N for counts, the numeric carrier otherwise). *)
 From Coq Require Import List ZArith NArith Bool Arith Lia QArith Qcanon.
 From LMBase Require Import Res ListX.
-From LMPwm Require Import GenComplement PwmModel PwmProofs PwmExact.
+From Coq Require Import Qabs Permutation.
+From LMBase Require Import IEEE.
+From LMPwm Require Import GenComplement PwmModel PwmCheck PwmProofs PwmExact PwmF32 PwmCheckSound.
 Import ListNotations.
 Local Open Scope nat_scope.
 
@@ -169,6 +171,45 @@ Proof.
     unfold dna_rc. rewrite dna_symbols_seq, (rc_eq_spec (n_zero O) dna_K dna_comp).
     rewrite rc_spec_length. unfold rc_seq. rewrite map_length, rev_length. lia.
 Qed.
+
+(* count -> frequency on ANY carrier (binary32 as it is; no commutativity assumed): the
+   re-association that really happens.  Both sides divide the same cells (count +
+   pseudocount, in complement order) by the left-to-right sum of these cells; one sums
+   them in the original column order, the other in complement order (a permutation). *)
+Theorem C10_revcomp_to_freq_reassociation :
+  forall (T : Type) (O : NumOps T) (p : list T) (r : list N),
+    length p = dna_K -> length r = dna_K ->
+    let cells := freq_cells O p r in
+    let cells' := rc_row_spec (n_zero O) dna_K dna_comp cells in
+    rc_row_spec (n_zero O) dna_K dna_comp (to_freq_row O p r)
+      = map (fun x => n_div O x (fsum O cells)) cells' /\
+    to_freq_row O (rc_row_spec (n_zero O) dna_K dna_comp p) (rc_row_spec 0%N dna_K dna_comp r)
+      = map (fun x => n_div O x (fsum O cells')) cells' /\
+    Permutation cells' cells.
+Proof.
+  intros T O p r Hp Hr.
+  exact (rc_to_freq_row_any O dna_K dna_comp dna_comp_lt dna_comp_inv p r Hp Hr).
+Qed.
+
+(* what a [true] of the extracted C10 checkers states: the observed matrix IS the row
+   reversal combined with the complement permutation (bit patterns identify binary32
+   values), and mirrored scores differ by at most M * 2^-23 * sum |cells| *)
+Theorem C10_check_rc_sound :
+  (forall m obs, check_rc_f32 m obs = true -> obs = dna_rc_spec F32.zero m) /\
+  (forall m obs, check_rc_N m obs = true -> obs = dna_rc_spec 0%N m) /\
+  (forall l, strand_symmetric l = true -> rc_row_spec F32.zero dna_K dna_comp l = l) /\
+  (forall a b : F32.t, f32_same a b = true <-> a = b).
+Proof.
+  split; [exact check_rc_f32_sound|]. split; [exact check_rc_N_sound|].
+  split; [exact strand_symmetric_sound | exact f32_same_eq].
+Qed.
+
+Theorem C10_check_mirror_sound :
+  forall terms a b t x y, check_mirror terms a b = true ->
+    existsb F32.is_nan terms = false -> F32.is_nan a = false -> F32.is_nan b = false ->
+    all_some (map f32_to_Q terms) = Some t -> f32_to_Q a = Some x -> f32_to_Q b = Some y ->
+    (Qabs (x - y) <= (Z.of_nat (length t) # 8388608) * Qsum (map Qabs t))%Q.
+Proof. exact check_mirror_sound. Qed.
 
 (* ---- non-vacuity / examples ---- *)
 
